@@ -202,7 +202,17 @@ func (l *kvsLock) supportTimeout(ver string) {
 		ExpiresAt: cast.Ptr(time.Now().Add(l.dlp.leaseTTL)),
 	})
 	if err != nil {
-		l.dlp.logger.Debugf("supportTimeout raise detected, just do nothing for the key=%s, err=%s", l.key, err)
+		if errors.Is(err, errors.ErrNotExist) || errors.Is(err, errors.ErrConflict) || !l.isLocked() {
+			l.dlp.logger.Debugf("supportTimeout raise detected, just do nothing for the key=%s, err=%s", l.key, err)
+			return
+		}
+		// the storage could not answer, but the lock is still held: the record must be refreshed
+		// before the lease runs out, so try again shortly with the same version
+		l.dlp.logger.Warnf("supportTimeout could not refresh the key=%s, will try again: %s", l.key, err)
+		newFuture := timeout.Call(func() { l.supportTimeout(ver) }, l.dlp.leaseTTL/8)
+		if !l.future.CompareAndSwap(future, newFuture) {
+			newFuture.Cancel()
+		}
 		return
 	}
 	newFuture := timeout.Call(func() { l.supportTimeout(r.Version) }, l.dlp.leaseTTL/2)
